@@ -366,3 +366,50 @@ def run_step_confine(case):
 
 
 HANDLERS['step_confine'] = run_step_confine
+
+
+def run_classify(case):
+    """class codes of a batch of instruction words (ARM, or Thumb 32-bit) through the pure decoders; -1 for none/errors"""
+    import importlib
+    t = tables()
+    mod = importlib.import_module('armulator.armv6.opcodes.decoders.' + case['module'])
+    out = []
+    for w in case['words']:
+        try:
+            with contextlib.redirect_stdout(io.StringIO()):
+                r = mod.decode_instruction(w)
+            out.append(-1 if r is None else t['concrete_classes'][r.__name__]['code'])
+        except Exception:  # noqa
+            out.append(-1)
+    return out
+
+
+HANDLERS['classify'] = run_classify
+
+
+def construct(cfgd):
+    from armulator.armv6.arm_v6 import ArmV6
+    cfg = dict(cfgd)
+    cfg['reset_values'] = {k: bin(v) for k, v in cfg.get('reset_values', {}).items()}
+    cfg['memory_list'] = []
+    fd, path = tempfile.mkstemp(suffix='.json', dir=os.environ.get('VERIF_TMP'))
+    with os.fdopen(fd, 'w') as f:
+        json.dump(cfg, f)
+    try:
+        return ArmV6(path)
+    finally:
+        os.unlink(path)
+
+
+def run_multi_construct(case):
+    """construct several processors from configurations (nothing is overwritten afterwards), optionally take_reset,
+    and return the state of instance `probe`"""
+    arms = [construct(c) for c in case['cfgs']]
+    with contextlib.redirect_stdout(io.StringIO()):
+        if case.get('reset'):
+            for a in arms:
+                a.take_reset()
+    return [0] + dump(arms[case['probe']])
+
+
+HANDLERS['multi_construct'] = run_multi_construct
